@@ -448,6 +448,10 @@ func (en *DefaultEngine) init(ctx context.Context, input []byte) (bool, error) {
 	}
 
 	if len(en.st.Code) == 0 {
+		if en.st.Depth() > -1 {
+			// navigation stack left behind by a failed execution; restart from the top node
+			sym = "^"
+		}
 		b := vm.NewLine(nil, vm.MOVE, []string{sym}, nil, nil)
 		cont, err = en.setCode(ctx, b)
 		if err != nil {
